@@ -1,6 +1,7 @@
 //! Harness binary for the properties anchored in the `flussab` core crate
 //! (reader, writer, text scanners, combinators).
 mod c15;
+mod c16;
 
 use mc_core::report::{parse_cli, write_out, Report};
 use mc_core::Value;
@@ -15,6 +16,7 @@ fn main() {
         let v = if v.get("replay").is_some() { v["replay"].clone() } else { v };
         let (violated, text) = match v["property"].as_str().unwrap_or("") {
             "C15" => c15::replay(&v),
+            "C16" => c16::replay(&v),
             other => {
                 eprintln!("mc-base: cannot replay property {other:?}");
                 std::process::exit(2);
@@ -29,6 +31,10 @@ fn main() {
         "C15" => {
             c15::run(cli.tier, &mut report);
             c15::RULE.into()
+        }
+        "C16" => {
+            c16::run(cli.tier, &mut report);
+            c16::RULE.into()
         }
         other => {
             eprintln!("mc-base: unknown property {other:?}");
